@@ -1701,6 +1701,28 @@ impl Prop for C05 {
             let mut s = HashMap::new();
             let _ = compile_text(t, "warm.clsp", &[], i % 2 == 0, &mut a, &mut s, None);
         }
+        // the other entry points and option settings have lazy statics of their own (the
+        // command line's argument tables, per-version operator sets): the allocation counts
+        // of a run must not depend on which run of the process uses them first
+        let _ = std::fs::create_dir_all("r/warm");
+        for (i, t) in WARMUP.iter().chain(CANARIES.iter().take(6)).enumerate() {
+            let path = format!("r/warm/w{}.clsp", i);
+            let _ = std::fs::write(&path, t);
+            for v in [None, Some(0u8), Some(1u8)] {
+                let _ = compile_cli(&path, &["r/warm".to_string()], v);
+                let mut a = Allocator::new();
+                let mut s = HashMap::new();
+                let _ = compile_text_v(t, "warm.clsp", &[], i % 2 == 1, v, &mut a, &mut s, None);
+            }
+            for flags in [0u8, 5, 10, 15] {
+                let mut a = Allocator::new();
+                let mut s = HashMap::new();
+                let _ = compile_direct(t, "warm.clsp", &[], flags, &mut a, &mut s);
+            }
+            let _ = compile_py(t, &[]);
+        }
+        let _ = std::fs::remove_dir_all("r/warm");
+        let _ = std::fs::remove_file("main.sym");
         ARGNAME_CTR.store(0, Ordering::SeqCst);
         let _ = corpus();
     }
